@@ -22,6 +22,8 @@ type c39Burst struct {
 	BodyKiB    []int `json:"body_kib"`      // body size per request (cycled)
 	LimitMiB   int   `json:"limit_mib"`     // requested limit (clamped by the server to >= 16 MiB - 1)
 	ReleaseGap int   `json:"release_gap_us"` // pause between releasing blocked handlers
+	Kill       int   `json:"kill_clients,omitempty"` // connections closed by their client while the burst is piled up
+	SecondWave int   `json:"second_wave,omitempty"`  // requests from fresh connections after the kill
 }
 
 func genC39(rt *rapid.T) c39Burst {
@@ -43,11 +45,19 @@ func genC39(rt *rapid.T) c39Burst {
 			b.BodyKiB = append(b.BodyKiB, rapid.SampledFrom([]int{512, 1024, 2048, 3072, 5120}).Draw(rt, "kib"))
 		}
 	}
+	if rapid.IntRange(0, 2).Draw(rt, "kill-mode") > 0 {
+		// some peers go away while their requests wait for memory; fresh connections then bring more load
+		b.Kill = rapid.IntRange(1, max(1, b.Clients/2)).Draw(rt, "kill")
+		b.SecondWave = rapid.IntRange(2, 12).Draw(rt, "second")
+		if b.PerClient < 2 {
+			b.PerClient = 2
+		}
+	}
 	return b
 }
 
 func runC39(b c39Burst) pbt.Result {
-	var running, maxRunning, handled atomic.Int64
+	var running, maxRunning, handled, inHandlers, hardLimit atomic.Int64
 	var memViolation atomic.Value
 	gate := make(chan struct{})
 	var srvRef atomic.Pointer[rpc.Server]
@@ -68,11 +78,17 @@ func runC39(b c39Burst) pbt.Result {
 			}
 		}
 		sample("in handler")
+		// the harness' own account, independent of the server's counters: what the requests now inside handlers occupy
+		mine := int64(max(len(hctx.Request), b.BufSizeKiB<<10))
+		if cur := inHandlers.Add(mine); cur > hardLimit.Load() && hardLimit.Load() > 0 {
+			memViolation.CompareAndSwap(nil, fmt.Sprintf("%d bytes of requests are inside handlers at the same time, request memory limit is %d", cur, hardLimit.Load()))
+		}
 		select {
 		case <-gate:
 		case <-ctx.Done():
 		}
 		sample("in handler after gate")
+		inHandlers.Add(-mine)
 		running.Add(-1)
 		handled.Add(1)
 		hctx.Response = append(hctx.Response, 0xef, 0xbe, 0xad, 0x0b)
@@ -93,6 +109,7 @@ func runC39(b c39Burst) pbt.Result {
 	if limit != wantLimit {
 		return pbt.Fail("configured request memory limit %d MiB, server reports %d (documented clamp gives %d)", b.LimitMiB, limit, wantLimit)
 	}
+	hardLimit.Store(wantLimit)
 	clients := make([]rpc.Client, b.Clients)
 	for i := range clients {
 		clients[i] = newClient(false)
@@ -128,25 +145,68 @@ func runC39(b c39Burst) pbt.Result {
 			idx++
 			accounted += int64(max(kib<<10+12, b.BufSizeKiB<<10))
 			wg.Add(1)
-			go func(cl rpc.Client, kib int) {
+			go func(cl rpc.Client, kib int, killed bool) {
 				defer wg.Done()
 				req := cl.GetRequest()
 				req.Body = append(req.Body, makeBody(nextKey(), make([]byte, kib<<10))...)
 				ctx, cancel := context.WithTimeout(context.Background(), 90*time.Second)
 				defer cancel()
 				resp, err := cl.Do(ctx, srv.ep.network, srv.ep.address, req)
-				if err != nil {
+				if err != nil && !killed {
 					callErr.CompareAndSwap(nil, fmt.Sprintf("call failed: %v", err))
 				}
 				if resp != nil {
 					cl.PutResponse(resp)
 				}
-			}(clients[ci], kib)
+			}(clients[ci], kib, ci < b.Kill)
+		}
+	}
+	if b.Kill > 0 {
+		// wait for the pile-up, make some peers go away while their requests are inside handlers / waiting for memory,
+		// then bring fresh load over new connections
+		for i := 0; i < 200 && running.Load() == 0; i++ {
+			time.Sleep(time.Millisecond)
+		}
+		time.Sleep(20 * time.Millisecond)
+		for ci := 0; ci < b.Kill && ci < len(clients); ci++ {
+			_ = clients[ci].Close()
+		}
+		fresh := newClient(false)
+		clients = append(clients, fresh)
+		for k := 0; k < b.SecondWave; k++ {
+			kib := b.BodyKiB[idx%len(b.BodyKiB)]
+			idx++
+			total++
+			wg.Add(1)
+			go func(kib int) {
+				defer wg.Done()
+				req := fresh.GetRequest()
+				req.Body = append(req.Body, makeBody(nextKey(), make([]byte, kib<<10))...)
+				ctx, cancel := context.WithTimeout(context.Background(), 90*time.Second)
+				defer cancel()
+				resp, err := fresh.Do(ctx, srv.ep.network, srv.ep.address, req)
+				if err != nil {
+					callErr.CompareAndSwap(nil, fmt.Sprintf("second-wave call failed: %v", err))
+				}
+				if resp != nil {
+					fresh.PutResponse(resp)
+				}
+			}(kib)
+		}
+	}
+	allDone := make(chan struct{})
+	go func() { wg.Wait(); close(allDone) }()
+	finished := func() bool {
+		select {
+		case <-allDone:
+			return true
+		default:
+			return false
 		}
 	}
 	// let the burst pile up against the limits, then release handlers one at a time
 	deadline := time.Now().Add(60 * time.Second)
-	for handled.Load() < int64(total) && time.Now().Before(deadline) {
+	for !finished() && time.Now().Before(deadline) {
 		if running.Load() > 0 {
 			select {
 			case gate <- struct{}{}:
@@ -160,7 +220,7 @@ func runC39(b c39Burst) pbt.Result {
 		}
 	}
 	close(gate)
-	waitErr := withTimeout(60*time.Second, "burst", wg.Wait)
+	waitErr := withTimeout(60*time.Second, "burst", func() { <-allDone })
 	close(stopSampler)
 	samplerWG.Wait()
 	if v := memViolation.Load(); v != nil {
@@ -176,6 +236,9 @@ func runC39(b c39Burst) pbt.Result {
 		return pbt.Fail("%s (excess load must wait, not fail)", v.(string))
 	}
 	cls := []string{fmt.Sprintf("workers-%d", b.MaxWorkers)}
+	if b.Kill > 0 {
+		cls = append(cls, "peers-went-away")
+	}
 	over := accounted > wantLimit
 	if over {
 		cls = append(cls, "over-memory-limit")
